@@ -12,6 +12,7 @@ Oracle     : every corruption from the listed classes (delete '}', delete '{', i
              quote, insert a character of no token, rename a variable use) must raise CompilationError / SyntaxError
              through lesscpy.compile and print a diagnostic (exit code / stderr) through `python -m lesscpy`.
 """
+import io
 import json
 import os
 import random
@@ -177,6 +178,16 @@ def _import_job(job):
         with open(os.path.join(d, 'main.less'), 'w') as f:
             f.write(['.pre{left:0}\n@import "sub/broken.less";\n.post{right:0}\n', '@import "mid";\n.post{right:0}\n',
                      '.wrap{@import "sub/broken";}\n.post{right:0}\n'][shape])
+        if shape == 2:
+            # inside a rule the text means something else than at the top level (a mixin defined there is local to the rule, a call that
+            # no longer finds it is ignored together with its arguments): what must be reported is what the pasted text reports
+            try:
+                lesscpy.compile(io.StringIO('.wrap{%s}\n.post{right:0}\n' % src), minify=True)
+                return ('pasted-compiles', '')
+            except C.HarnessTimeout:
+                return ('timeout', 60, '', ['HarnessTimeout'])
+            except BaseException:  # noqa
+                pass
         try:
             with open(os.path.join(d, 'main.less')) as fh:
                 return ('ok', lesscpy.compile(fh, minify=True))
@@ -320,6 +331,8 @@ def run(tier):
     stats['imported_corruptions'] = len(import_sample)
     for k, ((kind, src), r) in enumerate(zip(import_sample, ires)):
         chk.count(('import', k % 3, src), nontrivial=True)
+        if r[0] == 'pasted-compiles':
+            continue
         if r[0] == 'ok':
             chk.violation({'kind': 'silent-import', 'class': kind, 'shape': ['direct', 'nested', 'in-rule'][k % 3], 'source': src,
                            'expected': 'CompilationError or SyntaxError: the corrupted text is in an imported file', 'actual': r[1][:300]})
